@@ -28,10 +28,10 @@ META = {
                    "graph and adjacency order, and rejects unknown names where the traversal meets them. The algorithmic model is "
                    "tied to the code by exact comparison on generated graphs (exhaustive over all sequences up to a length bound, "
                    "linear and circular, plus random long ones, permuted adjacency, unknown names); the implementation's output is "
-                   "additionally judged by the specification. For the graph the sequence readers build for a LINEAR strand of any length "
-                   "the algorithmic model is proved equal to the specification (loop invariant over the edge iterator: terminates within "
-                   "its fuel, residues = strand followed by its complement read backwards, numbered 1..2n). For circular strands the "
-                   "same equality is checked exhaustively up to the bound by the correspondence, not proved for every n."),
+                   "additionally judged by the specification. For the graphs the sequence readers build for a LINEAR strand of any length and for a "
+                   "CIRCULAR strand of any length >= 3 the algorithmic model is proved equal to the specification (loop invariant over "
+                   "the edge iterator: terminates within its fuel, closes the ring and stops, residues = strand followed by its "
+                   "complement read backwards, numbered 1..2n); that these are the graphs the readers build is compared on every run."),
     'level_note': ("Trusted: Coq kernel + vm_compute, the table extractor of gen/translate.py, the harness. No axioms (Print "
                    "Assumptions: closed). networkx adjacency order and MetaMolecule.add_node are modelled by hand and validated "
                    "by the correspondence only."),
@@ -114,6 +114,7 @@ Definition show (r : result mg) :=
   | Err ErrKey => (1, [], [], 0) | Err ErrIO => (2, [], [], 0) | Err ErrFuel => (3, [], [], 0)
   end.
 Definition run (g : mg) (names : list string) := (show (complement BASE_LIBRARY g), comp_strand BASE_LIBRARY names).
+Definition reader_graph (circ : bool) (names : list string) := show (Ok (if circ then circular names else linear names)).
 """
 
 
@@ -280,8 +281,46 @@ def build_case(c, rng):
     return build_graph(c['names'], edges, rng, keys=keys, attrs=attrs)
 
 
-def run(ctx):
-    ctx.correspondences += ['complement_dsDNA vs model/Dna.v complement (exact: nodes, ordered adjacency, labels, error class)',
+def reader_graphs(ctx):
+    """the graphs the theorems C19_algorithm_on_linear/circular_strands speak about are the graphs the sequence readers build"""
+    import io
+    import contextlib
+    import pathlib
+    from polyply import MetaMolecule
+    from harness import systems
+    rng = ctx.rng
+    exprs, snaps = [], []
+    with systems.Workdir() as wd:
+        for _ in range(ctx.n(12, 60)):
+            n = rng.randint(3, 9)
+            seq = ''.join(rng.choice('ACGT') for _ in range(n))
+            circ = rng.random() < 0.5
+            p = pathlib.Path(wd) / 's.ig'
+            p.write_text('; DNA test\ntitle\n' + seq + ('2' if circ else '1') + '\n')
+            with contextlib.redirect_stderr(io.StringIO()), contextlib.redirect_stdout(io.StringIO()):
+                meta = MetaMolecule.from_sequence_file(None, p, 'dna')
+            snap = snapshot(meta)
+            names = [nm for _, _, nm in snap['nodes']]
+            exprs.append(f"reader_graph {lit(circ)} {lit(names)}")
+            snaps.append((circ, seq, snap))
+    res = core.coq_eval_cases(ctx, 'readers', PRELUDE, exprs, chunk=100)
+    mism = 0
+    for (circ, seq, snap), r in zip(snaps, res):
+        code, nodes, adj, maxres = r
+        model = ([tuple(x) for x in nodes], [(k, [(v, [tuple(a) for a in d]) for v, d in l]) for k, l in adj], maxres)
+        impl = ([tuple(x) for x in snap['nodes']], [(k, [(v, [tuple(a) for a in d]) for v, d in l]) for k, l in snap['adj']], snap['maxres'])
+        if model != impl:
+            mism += 1
+            if mism <= 2:
+                ctx.note(f"reader graph ({'circular' if circ else 'linear'} {seq}): model {str(model)[:200]} impl {str(impl)[:200]}")
+    ctx.extra['reader_graphs'] = {'cases': len(snaps), 'mismatches': mism}
+    if mism:
+        ctx.broken.append('correspondence:graphs built by the sequence readers vs model linear / circular')
+
+
+def run_cases(ctx):
+    ctx.correspondences += ['graphs built by the sequence readers (linear, circular .ig) == model linear / circular (premise of the algorithm theorems)',
+                            'complement_dsDNA vs model/Dna.v complement (exact: nodes, ordered adjacency, labels, error class)',
                             'implementation output judged by the specification comp_strand (evaluated in Coq)']
     cases = gen_cases(ctx)
     for fn, c in core.corpus_cases('C19'):
@@ -361,6 +400,15 @@ def glue(ctx):
                               {'glue': True, 'seq': seq, 'dsdna': flag, 'observed': captured['meta']})
     finally:
         gi.MapToMolecule = real
+
+
+def run(ctx):
+    run_cases(ctx)
+    try:
+        reader_graphs(ctx)
+    except core.CoqEvalError as exc:
+        ctx.note(str(exc)[:600])
+        ctx.broken.append('correspondence:reader graphs (evaluation failed)')
 
 
 def search(ctx):
